@@ -943,8 +943,54 @@ def with_block_exceptions(ctx, n):
                                'out at %r with the resource free' % (log, d, t_in, t_in + 1), family='with-block-exceptions')
 
 
+def plain_items(ctx, n):
+    """directed family (implementation only): the items of a Store / FilterStore are arbitrary objects - None, 0, '', False,
+    empty containers included.  FIFO, bounds and conservation are about the objects that were put, whatever their value:
+    a getter that arrives while such an item is stored is served at once and receives that very object"""
+    from usim.py import Environment
+    from usim.py.resources.store import Store, FilterStore
+    rng = ctx.rng
+    for _ in range(n):
+        pool = [None, 0, '', False, [], (), 'x', 5, 0.0]
+        items = [rng.choice(pool) for _ in range(rng.choice([1, 2, 3, 4]))]
+        cap = rng.choice([1, 2, 10])
+        filt = rng.random() < 0.4
+        getter_first = rng.random() < 0.5
+        case = {'plain_items': [repr(x) for x in items], 'capacity': cap, 'filter_store': filt, 'getter_first': getter_first}
+        env = Environment()
+        store = (FilterStore if filt else Store)(env, capacity=cap)
+        got = []
+
+        def producer(env):
+            if getter_first:
+                yield env.timeout(1)
+            for x in items:
+                yield store.put(x)
+
+        def consumer(env):
+            if not getter_first:
+                yield env.timeout(1)
+            for _i in items:
+                x = yield (store.get(lambda it: True) if filt else store.get())
+                got.append((x, env.now))
+        env.process(producer(env))
+        env.process(consumer(env))
+        try:
+            env.run(until=20)
+        except BaseException as e:   # noqa
+            ctx.fail(case, 'raised %r; received %r' % (e, got), family='plain-items')
+            continue
+        ctx.count(case, nontrivial=True)
+        ctx.bump('family:plain-items')
+        ok = len(got) == len(items) and all(g[0] is it and g[1] == 1 for g, it in zip(got, items)) and not store.items
+        if not ok:
+            ctx.fail(case, 'items %r put into a %s of capacity %d: the getter received %r (item, time); expected every object, in '
+                           'order, at time 1' % (items, 'FilterStore' if filt else 'Store', cap, got), family='plain-items')
+
+
 def run(ctx):
     with_block_exceptions(ctx, ctx.n(40, 600))
+    plain_items(ctx, ctx.n(40, 400))
     run_batch(ctx, make_cases(ctx, ctx.n(300, 10000)))
 
 
